@@ -148,6 +148,9 @@ impl DialT {
 pub struct ConnT {
     pub okey: String,
     pub dial: usize,
+    /// the protocol version the connection reports (HTTP/2 when asked for or negotiated) - shareable
+    /// or not is a separate matter (`PoolCfg.single_use`)
+    pub h2: bool,
     pub shareable: bool,
     pub open: bool,
     pub ready: bool,
@@ -544,13 +547,15 @@ impl Future for HandshakeFuture {
             Tri::Ok => {
                 let id = w.conns.len();
                 let okey = w.dials[did].okey.clone();
-                let shareable = !w.cfg.single_use && (w.dials[did].h2req || w.dials[did].alpn_h2);
+                let is_h2 = w.dials[did].h2req || w.dials[did].alpn_h2;
+                let shareable = !w.cfg.single_use && is_h2;
                 w.dials[did].stage = DStage::Done;
                 w.dials[did].end_step = Some(st);
                 w.dials[did].conn = Some(id);
                 w.conns.push(ConnT {
                     okey,
                     dial: did,
+                    h2: is_h2,
                     shareable,
                     open: true,
                     ready: true,
@@ -675,7 +680,7 @@ impl Connection<B> for HConn {
         }
     }
     fn version(&self) -> http::Version {
-        if self.w.lock().unwrap().conns[self.id].shareable {
+        if self.w.lock().unwrap().conns[self.id].h2 {
             http::Version::HTTP_2
         } else {
             http::Version::HTTP_11
@@ -1258,6 +1263,18 @@ impl Sim {
                 if done { "completed" } else { "obtained a connection" }
             );
             w.violate("C03/lost-wakeup", msg);
+            // the progress was a connection somebody else had dialed or used before: a released (or
+            // handed back) connection reached this request's channel and nothing told the request - in
+            // a runtime it would go on waiting for its own dial (C14) while the connection sits parked,
+            // unusable for the next request, which dials anew (C04)
+            if let RStatus::Holding(cid) = after_status {
+                let foreign = w.dials[w.conns[cid].dial].owner_req != Some(id) || w.conns[cid].handoffs > 1 || w.conns[cid].ever_pooled;
+                if foreign {
+                    let m = format!("request #{id} found conn#{cid}, released to it earlier, only because it happened to be polled: its waker was never invoked since the start of its previous poll");
+                    w.violate("C14/a-released-connection-delivered-without-wake-up", m.clone());
+                    w.violate("C04/released-connection-parked-without-wake-up", m);
+                }
+            }
         }
         // C14 obligations: this request has now been polled after the entry
         let mut violated = vec![];
@@ -2425,6 +2442,36 @@ pub fn many_origins_strategy(max_ops: usize) -> impl Strategy<Value = PoolCase> 
         .prop_map(|(n, mut ops, cont)| {
             ops.insert(0, Op::Sweep { n });
             PoolCase { cfg: PoolCfg { idle_timeout_ms: None, max_idle: 32, cont, req_timeout_ms: None, open_is_ready: true, caller_host: 0, single_use: false }, ops }
+        })
+}
+
+/// A sweep over hundreds of other origins *in the middle* of the traffic to a few origins: requests
+/// issued before the sweep still hold their connections while it runs and release them afterwards,
+/// more requests to the same origins follow. Whatever the pool does to its key bookkeeping at scale,
+/// the origins' connections must stay theirs and the idle bound (1 or 2 here) must hold.
+pub fn many_origins_mid_strategy(max_ops: usize) -> impl Strategy<Value = PoolCase> {
+    let op = || {
+        prop_oneof![
+            6 => (0u16..3, Just(false)).prop_map(|(origin, h2)| Op::IssueAt { origin, h2 }),
+            8 => any::<u16>().prop_map(Op::Poll),
+            4 => any::<u16>().prop_map(Op::DialOk),
+            4 => (any::<u16>(), Just(false)).prop_map(|(i, a)| Op::HsOk(i, a)),
+            4 => any::<u16>().prop_map(Op::Release),
+            4 => any::<u16>().prop_map(Op::ConnReady),
+            3 => Just(Op::Bg),
+        ]
+    };
+    (
+        prop_oneof![Just(260u16), Just(300u16), Just(520u16)],
+        proptest::collection::vec(op(), 4..(max_ops / 2).max(5)),
+        proptest::collection::vec(op(), 4..(max_ops / 2).max(5)),
+        any::<bool>(),
+        prop_oneof![Just(1usize), Just(2usize)],
+    )
+        .prop_map(|(n, mut before, after, cont, max_idle)| {
+            before.push(Op::Sweep { n });
+            before.extend(after);
+            PoolCase { cfg: PoolCfg { idle_timeout_ms: None, max_idle, cont, req_timeout_ms: None, open_is_ready: true, caller_host: 0, single_use: false }, ops: before }
         })
 }
 
